@@ -362,6 +362,12 @@ def measure_rule(ctx):
 
 
 def run(ctx):
+    # 'before and after the mesh is moved or mirrored': no memo of a geometric quantity survives a change of the coordinates
+    from ..shared import memo_rule as _memo_rule, cached_param_rule as _cached_param_rule
+
+    _scope = ("EasyFEA.FEM._group_elem", "EasyFEA.FEM._mesh", "EasyFEA.FEM.Elems")
+    _memo_rule(ctx, "R8.9", scope=lambda f: f.module.name.startswith(_scope), min_instances=0)
+    _cached_param_rule(ctx, "R8.10", min_instances=20)
     ctx.level = "other"
     ctx.explanation = (
         "Decided on the exact reference coordinates: every face / surface / segment row is coplanar (collinear), bounding, covers each face (edge) exactly once and the triple "
